@@ -1,5 +1,7 @@
 package rules
 
+import "golang.org/x/tools/go/ssa"
+
 import (
 	"go/types"
 )
@@ -20,4 +22,37 @@ func constExact(o types.Object) string {
 		return k.Val().ExactString()
 	}
 	return "?"
+}
+
+
+// flatPhi returns the non-phi values that can flow into a phi, looking through the merge phis that
+// "continue" and if/else joins put between a loop-carried variable and its header phi.  The phi itself and
+// the intermediate phis are left out.
+func flatPhi(ph *ssa.Phi) []ssa.Value {
+	seen := map[*ssa.Phi]bool{}
+	var out []ssa.Value
+	var walk func(p *ssa.Phi)
+	walk = func(p *ssa.Phi) {
+		if seen[p] {
+			return
+		}
+		seen[p] = true
+		for _, e := range p.Edges {
+			if q, ok := e.(*ssa.Phi); ok {
+				walk(q)
+				continue
+			}
+			dup := false
+			for _, o := range out {
+				if o == e {
+					dup = true
+				}
+			}
+			if !dup {
+				out = append(out, e)
+			}
+		}
+	}
+	walk(ph)
+	return out
 }
